@@ -15,6 +15,7 @@
   role in these branches).
 -/
 import Proofs.CastInt
+import Proofs.LineInts
 
 namespace Jl.C09
 open Jl Cast
@@ -135,5 +136,86 @@ example : castNamed genTables Ext.empty "ToInt8" (.f64 0x7FF8000000000001) = .er
   rfl                                                      -- NaN
 example : castNamed genTables Ext.empty "ToUint8" (.f64 0x406FF00000000000) = .ok (.int .u8 255) := by
   rfl                                                      -- 255.5 truncates
+
+/-! ### On the emitted BYTES: integer columns through one line (`Proofs/LineInts`)
+
+  `jlLine ti to line` = importer `GetRow`, exporter `CreateRow`, `row.MarshalJSON` over the regenerated
+  tables.  The input member is the canonical decimal text of `v`, carried as a JSON number literal (a
+  `json.Number` for the code) or as a JSON string; the column is declared numeric / string / timestamp /
+  auto (`LineInts.IntFmt`) with an integer raw type `T` on both sides. -/
+
+open Jl.Template Jl.LineInts Jl.JsonQuote in
+/-- Exact value or the line is rejected — never a wrapped one — for every `Ext`: either `v` fits `T` (and
+    int64 under a timestamp exporter) and exactly `{"k":<decimal of v>}` (quoted under a string column) and a
+    newline is written; or it does not and the line ends in an error with NOTHING written. -/
+theorem int_line_exact_or_rejected (ext : Ext) (k : Bytes) (hk : sanitize k = k) {fi fo : Format}
+    (hfi : IntFmt fi) (hfo : IntFmt fo) (t : IntTy) (v : Int) (line : Bytes) (jv : JV)
+    (hline : Json.unmarshal line = (.cons k jv .nil, true))
+    (hjv : IsCarrierJV jv (IntText.formatInt v)) :
+    (t.inRange v ∧ (fo = .timestamp → IntTy.i64.inRange v) ∧
+      jlLine ⟨genTables, ext⟩ (withCol [] k fi (.int t)) (withCol [] k fo (.int t)) line =
+        .ok (LineTime.objText k (cellText fo v) ++ [0x0A], none) ∧
+      Json.unmarshal (LineTime.objText k (cellText fo v)) = (.cons k (cellJV fo v) .nil, true) ∧
+      LineSpec.lookupJV (.cons k (cellJV fo v) .nil) k = some (cellJV fo v)) ∨
+    ((¬ t.inRange v ∨ (fo = .timestamp ∧ ¬ IntTy.i64.inRange v)) ∧
+      ∃ e, jlLine ⟨genTables, ext⟩ (withCol [] k fi (.int t)) (withCol [] k fo (.int t)) line =
+        .ok ([], some e)) :=
+  LineInts.int_line_exact_or_rejected ext k hk hfi hfo t v line jv hline hjv
+
+open Jl.Template Jl.LineInts Jl.JsonQuote in
+/-- Read the other way: whatever was written for an ACCEPTED line carries under `k` exactly `v`, and `v`
+    fits `T`. -/
+theorem int_line_accepted_is_exact (ext : Ext) (k : Bytes) (hk : sanitize k = k) {fi fo : Format}
+    (hfi : IntFmt fi) (hfo : IntFmt fo) (t : IntTy) (v : Int) (line : Bytes) (jv : JV)
+    (hline : Json.unmarshal line = (.cons k jv .nil, true))
+    (hjv : IsCarrierJV jv (IntText.formatInt v)) (b : Bytes)
+    (hb : jlLine ⟨genTables, ext⟩ (withCol [] k fi (.int t)) (withCol [] k fo (.int t)) line =
+      .ok (b, none)) :
+    t.inRange v ∧ ∃ body tree, b = body ++ [0x0A] ∧ Json.unmarshal body = (tree, true) ∧
+      LineSpec.lookupJV tree k = some (cellJV fo v) :=
+  LineInts.int_line_accepted_exact ext k hk hfi hfo t v line jv hline hjv b hb
+
+open Jl.Template Jl.LineInts in
+/-- "By decimal text or by json.Number": the number literal and the string of the same canonical decimal
+    give the SAME outcome of the line (same bytes, or both rejected). -/
+theorem carrier_independent_on_the_line (ext : Ext) (k : Bytes) {fi fo : Format} (hfi : IntFmt fi)
+    (hfo : IntFmt fo) (t : IntTy) (v : Int) (line₁ line₂ : Bytes)
+    (h₁ : Json.unmarshal line₁ = (.cons k (.num (IntText.formatInt v)) .nil, true))
+    (h₂ : Json.unmarshal line₂ = (.cons k (.str (IntText.formatInt v)) .nil, true)) :
+    jlLine ⟨genTables, ext⟩ (withCol [] k fi (.int t)) (withCol [] k fo (.int t)) line₁ =
+      jlLine ⟨genTables, ext⟩ (withCol [] k fi (.int t)) (withCol [] k fo (.int t)) line₂ :=
+  LineInts.carrier_independent_line ext k hfi hfo t v line₁ line₂ h₁ h₂
+
+open Jl.Template Jl.LineInts Jl.JsonQuote in
+/-- Templates with ANY number of columns (distinct names): on an accepted line, every column declared with an
+    integer raw type `T` on both sides whose input member (the last of its name) is the canonical decimal of
+    `v` holds a `v` that fits `T`, and the member written under it is exactly `v` — whatever the other columns
+    and members are.  `FloatTextOK` only because other columns may print floats. -/
+theorem emitted_line_ints_exact (ext : Ext) (ti to : Tmpl) (line b : Bytes)
+    (h : jlLine ⟨genTables, ext⟩ ti to line = .ok (b, none)) (hx : JsonPrint.FloatTextOK ext)
+    (hti : (OMap.keys ti).Nodup) (hto : (OMap.keys to).Nodup) :
+    ∃ body tree, b = body ++ [0x0A] ∧ Json.unmarshal body = (tree, true) ∧
+      ∀ k ci co t v jv, OMap.lookup ti k = some ci → OMap.lookup to k = some co →
+        IntFmt (Cells.format ci) → Cells.rawType ci = .int t →
+        IntFmt (Cells.format co) → Cells.rawType co = .int t →
+        (∀ k' ∈ OMap.keys to ++ OMap.keys ti ++ Order.inputKeys line,
+          sanitize k' = sanitize k → k' = k) →
+        LineSpec.lookupJV (LineSpec.normDup (Json.unmarshal line).1) k = some jv →
+        IsCarrierJV jv (IntText.formatInt v) →
+        t.inRange v ∧ (Cells.format co = .timestamp → IntTy.i64.inRange v) ∧
+          LineSpec.lookupJV tree (sanitize k) = some (cellJV (Cells.format co) v) :=
+  LineInts.emitted_line_ints_pointwise ext ti to line b h hx hti hto
+
+open Jl.Template Jl.LineInts in
+/-- …and a line holding an out-of-range integer under such a column of the importer is never accepted,
+    whatever the exporter's template. -/
+theorem out_of_range_line_never_accepted (ext : Ext) (ti to : Tmpl) (line : Bytes)
+    (hti : (OMap.keys ti).Nodup) (k : Bytes) (ci : Val) (hci : OMap.lookup ti k = some ci)
+    (hf : IntFmt (Cells.format ci)) (t : IntTy) (hty : Cells.rawType ci = .int t)
+    (jv : JV) (v : Int) (hjv : IsCarrierJV jv (IntText.formatInt v))
+    (hlast : LineSpec.lookupJV (LineSpec.normDup (Json.unmarshal line).1) k = some jv)
+    (hv : ¬ t.inRange v) (b : Bytes) :
+    jlLine ⟨genTables, ext⟩ ti to line ≠ .ok (b, none) :=
+  LineInts.out_of_range_not_accepted ext ti to line hti k ci hci hf t hty jv v hjv hlast hv b
 
 end Jl.C09
